@@ -146,13 +146,36 @@ func c12Shapes() []*spec.Spec {
 		s.Conns = append(s.Conns, &spec.Conn{From: "src.out", To: "SPR.in"}, &spec.Conn{From: "SPR.out", To: "SCO.in"})
 		out = append(out, s)
 	}
+	// many streamed items from a producer that also has a regular output: the consumer reads the
+	// producer's audit information while the producer is still completing it
+	{
+		s := mk("streaming_mixed", 16)
+		s.MaxTasks = 32
+		s.Procs = append(s.Procs, &spec.Proc{Name: "SPR", Kind: spec.KCmd, Cmd: spec.BuildCmd("SPR", in, []spec.PortDecl{{Name: "out", Stream: true}, {Name: "side"}, {Name: "res"}}, nil, nil, map[string]string{"size": "3000"})},
+			cmd("SCO", in, o1, 1), cmd("SD", in, o1, 1))
+		s.Conns = append(s.Conns, &spec.Conn{From: "src.out", To: "SPR.in"}, &spec.Conn{From: "SPR.out", To: "SCO.in"}, &spec.Conn{From: "SPR.side", To: "SD.in"})
+		out = append(out, s)
+	}
+	// one out-port fanned out to Go functions that read the same items through InIP().Read() at the same time
+	{
+		s := mk("fanout_gofunc_read", 12)
+		s.MaxTasks = 8
+		s.Procs = append(s.Procs, cmd("A", in, o1, 1))
+		s.Conns = append(s.Conns, &spec.Conn{From: "src.out", To: "A.in"})
+		for _, n := range []string{"G1", "G2", "G3"} {
+			s.Procs = append(s.Procs, &spec.Proc{Name: n, Kind: spec.KGoFunc, WriteAPI: true, Cmd: spec.BuildCmd(n, in, o1, nil, nil, nil)})
+			s.Conns = append(s.Conns, &spec.Conn{From: "A.out", To: n + ".in"}, &spec.Conn{From: "src.out", To: n + "b.in"})
+			s.Procs = append(s.Procs, &spec.Proc{Name: n + "b", Kind: spec.KGoFunc, WriteAPI: true, Cmd: spec.BuildCmd(n+"b", in, o1, nil, nil, nil)})
+		}
+		out = append(out, s)
+	}
 	return out
 }
 
 func c12(args []string) {
 	c := chk.New("C12", "exploration", args)
 	c.Build(true)
-	c.Rule("the subject built with the Go race detector (-race, GORACE=halt_on_error=0 log_path=...) runs generated graphs biased to shared state (fan-out of one out-port to several consumers, MapToTags beside sibling consumers, multi-output tasks feeding different consumers, fan-in, multi-core tasks, parameter feeders and combinators, Go functions) and directed shapes (tagging + reading siblings + GroupByTag concatenation, simultaneous closing of 6 upstreams, RunTo with literal parameter feeders, components with internal goroutines, a streaming pair), each under several yield-point seeds and GOMAXPROCS values; oracle: every 'WARNING: DATA RACE' block with a scipipe frame is a violation, de-duplicated by the pair of innermost scipipe frames; blocks without any scipipe frame are harness bugs (check reported as broken). distinct_nontrivial = distinct interleaving signatures observed under the race detector")
+	c.Rule("the subject built with the Go race detector (-race, GORACE=halt_on_error=0 log_path=...) runs generated graphs biased to shared state (fan-out of one out-port to several consumers, MapToTags beside sibling consumers, multi-output tasks feeding different consumers, fan-in, multi-core tasks, parameter feeders and combinators, Go functions) and directed shapes (tagging + reading siblings + GroupByTag concatenation, simultaneous closing of 6 upstreams, RunTo with literal parameter feeders, components with internal goroutines, a streaming pair, 16 streamed items from a producer with additional regular outputs, one out-port fanned out to Go functions that Read() the same items), each under several yield-point seeds and GOMAXPROCS values; oracle: every 'WARNING: DATA RACE' block with a scipipe frame is a violation, de-duplicated by the pair of innermost scipipe frames; blocks without any scipipe frame are harness bugs (check reported as broken). distinct_nontrivial = distinct interleaving signatures observed under the race detector")
 	c.Assume("the race detector reports happens-before violations on executed paths only")
 	rng := c.Rand("c12")
 	type job struct {
